@@ -183,7 +183,118 @@ def known_for(cls):
     return KNOWN.get(cls)
 
 
+def run_other_kinds_case(seed, i, tier):
+    """journal / event-log / accounting sources (and a text source) in one run: the summary must conserve what was printed
+    -- stdout unchanged by --summary, total bytes == bytes on stdout, per-file message counts == what the independent
+    readers / the generators say each file holds, per-file bytes + separators == total"""
+    import c08
+    import c09
+    import c10
+    import layouts
+    rng = core.rng_for(seed, PROP, i)
+    sep = rng.choice(("", "", "<#S#>", "\\n--\\n"))
+    opts = ["--color", "never", "--tz-offset", "+00:00"] + (["--separator", sep] if sep else [])
+    kinds = rng.sample(("journal", "evtx", "utmp", "text"), rng.randint(1, 3))
+    files = []
+    expect = {}      # path -> number of messages
+    for k in kinds:
+        if k == "journal":
+            data, ents, _ = c09.gen_journal(rng)
+            files.append(core.FileSpec("g.journal", data, 1600000000))
+            expect["g.journal"] = len(ents)
+        elif k == "evtx":
+            if rng.random() < 0.5:
+                data, recs, _, _ = c10.restamped(rng)
+            else:
+                data, recs = fixtures.load("pnp"), c10.dump("pnp")
+            files.append(core.FileSpec("e.evtx", data, 1600000000))
+            expect["e.evtx"] = len(recs)
+        elif k == "utmp":
+            name = rng.choice(sorted(layouts.LAYOUTS))
+            n = rng.randint(1, 10)
+            raw, recs, _ = c08.gen_records(rng, name, n)
+            fname = layouts.LAYOUTS[name][6]
+            files.append(core.FileSpec(fname, raw, 1600000000))
+            expect[fname] = len(recs)
+        else:
+            p = world.TextLogParams(n_msgs=rng.randint(1, 8), src_letter=b"T", cont_p=0.3, t0=1678938870_000_000_000)
+            content, msgs, _ = world.gen_text_log(rng, p)
+            files.append(core.FileSpec("t.log", content, 1600000000))
+            expect["t.log"] = len(msgs)
+    rng.shuffle(files)
+    argv = opts + [f.path for f in files]
+    cr = CaseResult()
+    prng = core.rng_for(seed, PROP, i, "plan")
+    plan = core.random_plan(prng, len(files), budget=6_000_000)
+    plan.hashseed = rng.getrandbits(32)
+    scn0 = core.Scenario(files, argv, None, "UTC")
+    scn1 = core.Scenario(files, opts + ["--summary"] + [f.path for f in files], None, "UTC")
+    r0 = core.execute(scn0, plan)
+    r1 = core.execute(scn1, plan)
+    for r in (r0, r1):
+        cr.runs += 1
+        cr.steps += r.trace.steps
+        cr.steps_max = max(cr.steps_max, r.trace.steps)
+        cr.decision_hashes.append(r.trace.decision_hash())
+        cr.arrival_hashes.append(r.trace.arrival_hash())
+    cr.policies[plan.policy.split(":")[0]] += 1
+    cr.probes["other_kinds_case"] += 1
+    for k in kinds:
+        cr.probes["kind_" + k] += 1
+    cr.nontrivial_keys.append(core.derive(0, scn1.digest()))
+    v = mergecheck.evaluate(r1, None, check_protocol=False) or mergecheck.evaluate(r0, None, check_protocol=False)
+    if not v and r0.stdout != r1.stdout:
+        v = [("summary_changes_stdout", mergecheck.show_diff(r1.stdout, r0.stdout))]
+    if not v:
+        sm = parse_summary(r1.stderr)
+        if sm is None:
+            v = [("summary_missing", "no Program Summary on stderr: %r" % r1.stderr[-300:])]
+        else:
+            def num(k, d):
+                try:
+                    return int(d.get(k, "").split()[0])
+                except (ValueError, IndexError):
+                    return None
+            pb = num("Printed bytes", sm["total"])
+            if pb != len(r1.stdout):
+                v.append(("printed_bytes_differ_from_stdout", "Printed bytes %s but %d bytes were written to stdout" % (pb, len(r1.stdout))))
+            total_msgs = sum(expect.values())
+            fsum = 0
+            nmsg = 0
+            for path, d in sm["files"].items():
+                fb = num("bytes", d)
+                fsum += fb or 0
+                want = expect.get(path)
+                cnt = None
+                for key in ("syslines", "journal events", "Events", "entries"):
+                    if num(key, d) is not None:
+                        cnt = num(key, d)
+                        break
+                if want is not None and cnt is not None:
+                    nmsg += cnt
+                    if cnt != want:
+                        v.append(("per_file_count_differs", "%s: summary says %d messages printed, the file holds %d" % (path, cnt, want)))
+                elif want:
+                    v.append(("per_file_count_missing", "%s: no printed-message count in its summary section: %r" % (path, d)))
+            sepb = decor.unescape_separator(sep)
+            if pb is not None and fsum + total_msgs * len(sepb) != pb and not v:
+                # a supplied final newline belongs to no file either
+                if fsum + total_msgs * len(sepb) + 1 != pb:
+                    v.append(("per_file_bytes_do_not_add_up", "sum of per-file bytes %d + %d separators of %d bytes != total %s" % (
+                        fsum, total_msgs, len(sepb), pb)))
+    for (cls, detail) in v[:4]:
+        rp = {"kind": "other_kinds", "scenario": scn1.to_json() if sum(len(f.data) for f in files) < 3_000_000 else None,
+              "plan": plan.as_replay(r1.trace).to_json(), "class": cls, "expect": expect, "sep": sep}
+        if rp["scenario"] is None:
+            rp = None
+        cr.violations.append(Violation(cls, "other kinds %s argv=%s: %s" % (sorted(expect.items()), argv, detail), rp, known=known_for(cls)))
+    cr.sample = {"argv": scn1.argv, "kinds": kinds, "messages_per_file": expect}
+    return cr
+
+
 def run_case(seed, i, tier):
+    if i % 6 == 5:
+        return run_other_kinds_case(seed, i, tier)
     rng = core.rng_for(seed, PROP, i)
     srcs, opts, dec, colour, tz_env, a, b = gen_case(rng)
     exp_stdout, ex = expectations(srcs, dec, a, b)
@@ -243,7 +354,7 @@ RULE = ("one case = 1..4 generated text sources (incl. sources that print nothin
         "(they change the byte counts), optional -a/-b window, run once without and once with --summary under the same "
         "plan; non-trivial = every pair; distinct = scenario digest")
 ASSUMPTIONS = ["the summary's datetimes have one-second resolution; the model truncates instants to the second",
-               "text sources only (accounting / evtx / journal entry counts need the independent readers of C08-C10)"]
+               "exact byte / line / date models for text sources; for journal, event-log and accounting sources (one case in six) the conservation equations only: stdout unchanged, total bytes == stdout, per-file message counts == what the independent readers / generators say, per-file bytes + separators == total"]
 
 
 def main(tier):
